@@ -83,7 +83,7 @@ def api_names():
         hashes = {}          # the selected backend has no registered Poseidon parameters (snarkjs, qaptools)
     def set_bitlength(n):
         rt.bitlength = n
-    return dict(snark=rt.snark, set_bitlength=set_bitlength, **hashes, PackBool=pk.PackBool, PackIntMod=pk.PackIntMod, PackList=pk.PackList, PackRepeat=pk.PackRepeat,
+    return dict(snark=rt.snark, set_bitlength=set_bitlength, _aug=model._aug, **hashes, PackBool=pk.PackBool, PackIntMod=pk.PackIntMod, PackList=pk.PackList, PackRepeat=pk.PackRepeat,
                 PrivVal=rt.PrivVal, PubVal=rt.PubVal, ConstVal=rt.ConstVal, LinComb=rt.LinComb,
                 guarded=rt.guarded, PrivValBool=bo.PrivValBool, PubValBool=bo.PubValBool, LinCombBool=bo.LinCombBool,
                 PrivValFxp=fx.PrivValFxp, PubValFxp=fx.PubValFxp, LinCombFxp=fx.LinCombFxp,
@@ -152,6 +152,8 @@ INT_T = [
     ("sub_ss", "i", "{i} - {i}"), ("sub_sc", "i", "{i} - {K}"), ("sub_cs", "i", "{K} - {i}"),
     ("mul_ss", "i", "{i} * {i}"), ("mul_sc", "i", "{i} * {K}"), ("mul_cs", "i", "{K} * {i}"),
     ("neg", "i", "-{i}"), ("pos", "i", "+{i}"), ("abs", "i", "abs({i})"), ("alias", "i", "{i}"),
+    ("aug_alias_add", "i", "_aug({i}, {i}, '+')[1]"), ("aug_alias_mulc", "i", "_aug({i}, {k}, '*')[1]"), ("aug_alias_sub", "i", "_aug({i}, {K}, '-')[1]"),
+    ("aug_alias_shl", "i", "_aug({i}, {s}, '<<')[1]"), ("aug_alias_res", "i", "_aug({i}, {i}, '-')[0]"),
     ("truediv_ss", "i", "{i} / {i}"), ("truediv_sc", "i", "{i} / {k}"), ("truediv_cs", "i", "{K} / {i}"), ("truediv_sN", "i", "{i} / {N}"),
     ("floordiv_sN", "i", "{i} // {N}"), ("mod_sN", "i", "{i} % {N}"),
     ("floordiv_ss", "i", "{i} // {i}"), ("floordiv_sc", "i", "{i} // {k}"), ("floordiv_cs", "i", "{K} // {i}"),
@@ -189,7 +191,7 @@ BOOL_T = [
     ("band_ss", "b", "{b} & {b}"), ("band_sc", "b", "{b} & {B}"), ("band_cs", "b", "{B} & {b}"),
     ("bor_ss", "b", "{b} | {b}"), ("bor_sc", "b", "{b} | {B}"), ("bor_cs", "b", "{B} | {b}"),
     ("bxor_ss", "b", "{b} ^ {b}"), ("bxor_sc", "b", "{b} ^ {B}"), ("bxor_cs", "b", "{B} ^ {b}"),
-    ("bnot", "b", "~{b}"), ("bpos", "b", "+{b}"), ("balias", "b", "{b}"), ("babs", "i", "abs({b})"), ("bifelse", "i", "{b}.if_else({i}, {K})"),
+    ("bnot", "b", "~{b}"), ("bpos", "b", "+{b}"), ("balias", "b", "{b}"), ("baug_alias_and", "b", "_aug({b}, {b}, '&')[1]"), ("baug_alias_xor", "b", "_aug({b}, {B}, '^')[1]"), ("babs", "i", "abs({b})"), ("bifelse", "i", "{b}.if_else({i}, {K})"),
     ("badd", "i", "{b} + {b}"), ("badd_i", "i", "{b} + {i}"), ("bsub", "i", "{b} - {i}"), ("brsub", "i", "{K} - {b}"),
     ("bmul", "i", "{b} * {i}"), ("bmul_b", "i", "{b} * {b}"), ("bneg", "i", "-{b}"),
     ("beq", "b", "{b} == {b}"), ("bne", "b", "{b} != {b}"), ("blt", "b", "{b} < {b}"), ("bge", "b", "{b} >= {B}"),
@@ -204,7 +206,8 @@ FXP_T = [
     ("fadd_fb", "f", "{f} + {b}"), ("fadd_bf", "f", "{b} + {f}"),
     ("fsub_ff", "f", "{f} - {f}"), ("fsub_fi", "f", "{f} - {i}"), ("fsub_if", "f", "{i} - {f}"),
     ("fsub_cf", "f", "{c} - {f}"), ("fsub_Kf", "f", "{K} - {f}"),
-    ("fneg", "f", "-{f}"), ("fabs", "f", "abs({f})"), ("falias", "f", "{f}"),
+    ("fneg", "f", "-{f}"), ("fabs", "f", "abs({f})"), ("falias", "f", "{f}"), ("faug_alias_add", "f", "_aug({f}, {f}, '+')[1]"), ("faug_alias_sub", "f", "_aug({f}, {i}, '-')[1]"),
+    ("faug_alias_mul", "f", "_aug({f}, {k}, '*')[1]"), ("faug_alias_res", "f", "_aug({f}, {c}, '+')[0]"),
     ("fmul_ff", "f", "{f} * {f}"), ("fmul_fi", "f", "{f} * {i}"), ("fmul_if", "f", "{i} * {f}"),
     ("fmul_fc", "f", "{f} * {c}"), ("fmul_cf", "f", "{c} * {f}"), ("fmul_fK", "f", "{f} * {K}"),
     ("fmul_bf", "f", "{b} * {f}"),
@@ -229,7 +232,10 @@ ASSERT_T = [
     ("assert_eq_c", None, "{i}.assert_eq({K})"), ("assert_ne", None, "{i}.assert_ne({i})"),
     ("assert_zero", None, "({i} - {i}).assert_zero()"), ("assert_nonzero", None, "{i}.assert_nonzero()"),
     ("assert_positive", None, "{i}.assert_positive()"), ("assert_positive_w", None, "{i}.assert_positive({w})"),
-    ("assert_range", None, "{i}.assert_range({K}, {K})"),
+    ("assert_range", None, "{i}.assert_range({K}, {K})"), ("assert_range_ss", None, "{i}.assert_range({i}, {i})"),
+    ("assert_range_sc", None, "{i}.assert_range({i} - {k}, {i} + {k})"),
+    ("fassert_range_ff", None, "{f}.assert_range({f}, {f})"), ("fassert_range_cf", None, "{f}.assert_range({c}, {f} + {k})"),
+    ("fassert_range_fi", None, "{f}.assert_range({f} - {k}, {i})"),
     ("bassert_eq", None, "{b}.assert_eq({b})"), ("bassert_ne", None, "{b}.assert_ne({B})"),
     ("fassert_lt", None, "{f}.assert_lt({f})"), ("fassert_ge", None, "{f}.assert_ge({c})"),
     ("fassert_eq", None, "{f}.assert_eq({f})"),
